@@ -14,7 +14,7 @@ from ..refs import tlvcfg
 ID = "C11"
 LEVEL = "exploration"
 RULE = (
-    "history = sequence of operations over {set_config(c0..c19, incl. the empty dictionary) without / with additional TLV blocks, derive_comments(c), derive_auth_blocks(c, ecc|cust), append / insert-at-0 / insert-in-middle "
+    "history = sequence of operations over {set_config(c0..c22, incl. the empty dictionary and security codes of 3 / 12 / 16 bytes) without / with additional TLV blocks, derive_comments(c), derive_auth_blocks(c, ecc|cust), append / insert-at-0 / insert-in-middle "
     "of a firmware component with or without TYPE tag, write+read back (replacing the object), foreign comment edit, write-and-check keeping the same object}; ALL sequences up to length 4 (quick) / 5 "
     "(thorough) over a reduced 10-letter alphabet plus seeded random sequences of length 5..25 over the full alphabet; the model is compared with the real "
     "objects after every operation. distinct = digest of the operation sequence; non-trivial = contains at least one set_config or derive operation"
@@ -61,6 +61,10 @@ CONFIGS.append({CODE: bytes([0x4C] * 8), (K, 4): b"\x00\x00", (K, 3): b"DevV0"})
 CONFIGS.append({CODE: bytes([0x4D] * 8), (K, 7): b"", (K, 6): b"EmptyVersion"})
 # the empty configuration (still a configuration: one component holding the terminator only)
 CONFIGS.append({})
+# security codes of other lengths than 8: the update block carries (and is keyed by) the whole code
+CONFIGS.append({CODE: bytes(range(0x50, 0x5C)), (K, 7): b"\x04", (K, 6): b"LongCode12"})
+CONFIGS.append({CODE: bytes(range(0x60, 0x70)), (K, 1): (61).to_bytes(2, "big"), (K, 5): (2).to_bytes(2, "big"), (K, 7): b"\x05"})
+CONFIGS.append({CODE: b"\x71\x72\x73", (K, 7): b"\x06", (K, 6): b"ShortCode3"})
 NCFG = len(CONFIGS)
 CUST_KEY = bytes([0x12, 0x34] * 8)
 
@@ -115,7 +119,12 @@ class Runner:
         self.ns = ns
         self.ctx = ctx
         B = ns.bec2file
-        self.obj = B.Bec2File(ns.bf3file.Bf3File({"FirmwareId": "1100"}), (), bytes(range(16)))
+        # the file is built from a list object the caller keeps (and from which a sibling file is built as well): whatever happens
+        # to this file later, the caller's list and the sibling stay as they were
+        self.caller_list = []
+        self.caller_comments = {"FirmwareId": "1100"}
+        self.obj = B.Bec2File(ns.bf3file.Bf3File(self.caller_comments, self.caller_list), (), bytes(range(16)))
+        self.sibling = ns.bf3file.Bf3File({"FirmwareId": "1100"}, self.caller_list)
         self.m = Model()
         self.m.comments = {"FirmwareId": "1100"}
         self.counter = 0
@@ -251,6 +260,8 @@ class Runner:
             if c != CONFIGS[i]:
                 extra = sorted(set(c) ^ set(CONFIGS[i]))
                 return "callers_configuration_dictionary_modified_by_the_library", {"config": i, "keys": extra[:4]}
+        if self.caller_list != [] or list(self.sibling.components) != []:
+            return "file_shares_the_callers_component_list", {"callers_list_len": len(self.caller_list), "sibling_components": len(self.sibling.components)}
         f = self.obj.bf3file
         comps = f.components
         is_cfg = []
